@@ -52,11 +52,15 @@ Inductive case :=
 | CBuild (padto : Z)                          (* AlwaysPadToLen argument of a PadOther padding extension *)
          (vers : Uint63.int) (rn : Uint63.int) (random : list Uint63.int)
          (sn : Uint63.int) (sid : list Uint63.int)
-         (suites : list Uint63.int) (comp : list Uint63.int)
+         (cn : Uint63.int) (suites : list Uint63.int)   (* CipherSuites as 2*count big-endian bytes *)
+         (mn : Uint63.int) (comp : list Uint63.int)     (* CompressionMethods *)
          (exts : list cext)
          (ok : bool)                          (* BuildHandshakeState returned nil *)
          (n : Uint63.int) (raw : list Uint63.int)   (* Hello.Raw when ok *)
-         (wf : bool).                         (* the runner built the spec to satisfy the precondition *)
+         (wf : bool).                         (* the runner built the spec to satisfy the precondition wf_specb *)
+
+Fixpoint pairs (b : bytes) : list N :=
+  match b with x :: y :: r => (x * 256 + y) :: pairs r | _ => [] end.
 
 (* spare capacity bytes.Buffer offers after grow(MinRead) *)
 Definition bbs512 : N -> N := fun _ => 512.
@@ -64,13 +68,13 @@ Definition bbs512 : N -> N := fun _ => 512.
 Definition check (c : case) : bool :=
   match c with
   | CValid n ws => valid_chb (pk (w2n n) ws)
-  | CBuild padto vers rn random sn sid suites comp exts ok n raw wf =>
+  | CBuild padto vers rn random sn sid cn suites mn comp exts ok n raw wf =>
       let h := {| h_vers := w2n vers; h_random := pk (w2n rn) random; h_sid := pk (w2n sn) sid;
-                  h_suites := map w2n suites; h_comp := map w2n comp |} in
+                  h_suites := pairs (pk (w2n cn) suites); h_comp := pk (w2n mn) comp |} in
       let es := map ext_of exts in
-      Bool.eqb wf (wf_specb h es) &&
+      implb wf (wf_specb h es) &&
       match marshal_hello bbs512 padto h es with
-      | Ok b => ok && bytes_eqb b (pk (w2n n) raw) && (negb wf || valid_chb b)
+      | Ok b => ok && bytes_eqb b (pk (w2n n) raw) && (negb (wf_specb h es) || valid_chb b)
       | Err _ => negb ok
       | Panic _ => false
       end
